@@ -241,6 +241,10 @@ def parse_rvalue(s):
 
 def _parse_rvalue(s):
     s = s.strip()
+    mcast = re.match(r'^(.*) as (.*) \((PointerCoercion\(.*\)|FnPtrToPtr)\)$', s, re.S)
+    if mcast and not s.startswith(('copy ', 'move ', 'no_retag ', 'const ', '&')):
+        # function item reified to a function pointer:  path::to::f as fn(..) -> .. (PointerCoercion(ReifyFnPointer(Safe), ..))
+        return ('cast', ('fnitem', mcast.group(1).strip()), mcast.group(2), mcast.group(3))
     if s.startswith(('copy ', 'move ', 'no_retag ', 'const ')):
         # operand, or cast: "<operand> as <ty> (<Kind>)"
         m = re.match(r'^(.*) as (.*) \((PointerCoercion\(.*\)|IntToInt|IntToFloat|FloatToInt|FloatToFloat|PtrToPtr|Transmute|FnPtrToPtr|PointerExposeProvenance|PointerWithExposedProvenance|Subtype)\)$', s, re.S)
